@@ -22,7 +22,6 @@ import (
 	"context"
 	"fmt"
 	"hash/crc32"
-	"io"
 	"net"
 	"net/http"
 	gorpc "net/rpc"
@@ -361,7 +360,7 @@ func c16BuildCall(r *vw.Rng, id int) (*VerifC16Req, *VerifC16Reply, c16Sent) {
 	case 2:
 		reply.Data = make([]byte, want/2, want+17)
 	case 3:
-		if want > 0 {
+		if want > 1 {
 			reply.Data = make([]byte, 1, want-1)
 		}
 	}
@@ -437,13 +436,11 @@ func TestVerifC16Conn(t *testing.T) {
 	defer px.ln.Close()
 	addr := px.ln.Addr().String()
 	faultName := map[int]string{0: "none", 1: "idle-drop", 2: "cut-in-request", 3: "cut-before-reply", 4: "cut-in-reply", 9: "concurrent"}
-	nextID := 1
 
 	ncases := vw.Scale(24, 240)
 	for ci := 0; ci < ncases; ci++ {
 		id := fmt.Sprintf("conn-%d", ci)
 		if !vw.CaseSelected(id) {
-			nextID += 1000
 			continue
 		}
 		r := root.Fork(uint64(ci))
@@ -465,6 +462,9 @@ func TestVerifC16Conn(t *testing.T) {
 				fault = 3
 			}
 			cached := px.live() != nil
+			if cached && fault != 1 && r.Chance(1, 3) {
+				fault = 1
+			}
 			if mode == 1 {
 				if plain == nil || !cached {
 					if plain != nil {
@@ -594,5 +594,4 @@ func TestVerifC16Conn(t *testing.T) {
 		cc.CloseAll()
 	}
 	be.stop()
-	_ = io.EOF
 }
